@@ -83,6 +83,9 @@ type c17Case struct {
 	AltProv     []byte `json:"alt_prov"`     // same archive, signed by the OTHER key
 	EvilArchive []byte `json:"evil_archive"` // a different archive of the same name
 	EvilProv    []byte `json:"evil_prov"`    // its provenance, signed by the OTHER key
+	// the same archive bytes under other file names, each signed UNDER THAT NAME by the real
+	// action.Package.Clearsign with the trusted key (renamed / mirrored / CI-named copies)
+	Renamed map[string][]byte `json:"renamed"`
 	// hand-made messages clear-signed by the TRUSTED key (three parts, odd sums entries, ...)
 	Customs map[string][]byte `json:"customs"`
 	Muts    []c17Mut          `json:"muts"`
@@ -134,6 +137,22 @@ type c17Obs struct {
 
 // c17CheckBlock rebuilds what messageBlock must have signed and compares it with the decoded text
 func c17CheckBlock(c *c17Case) string {
+	if n := c17CheckBlockFor(c, c.Name, c.Prov); n != "" {
+		return n
+	}
+	for _, nm := range c17RenamedNames(c.Name) {
+		if pv, ok := c.Renamed[nm]; ok {
+			if n := c17CheckBlockFor(c, nm, pv); n != "" {
+				return "signed as " + nm + ": " + n
+			}
+		}
+	}
+	return ""
+}
+
+// what ClearSign produced for the archive under file name [name] against the model's
+// message_block: yaml(metadata) separator yaml(files: {name: sha256:digest})
+func c17CheckBlockFor(c *c17Case, name string, provBytes []byte) string {
 	ch, err := loader.LoadArchive(bytes.NewReader(c.Archive))
 	if err != nil {
 		return "archive does not load: " + err.Error()
@@ -142,9 +161,9 @@ func c17CheckBlock(c *c17Case) string {
 	if err != nil {
 		return err.Error()
 	}
-	sums, _ := yaml.Marshal(&provenance.SumCollection{Files: map[string]string{c.Name: "sha256:" + c17Hex(c.Archive)}})
+	sums, _ := yaml.Marshal(&provenance.SumCollection{Files: map[string]string{name: "sha256:" + c17Hex(c.Archive)}})
 	want := string(meta) + "\n...\n" + string(sums)
-	block, _ := clearsign.Decode(c.Prov)
+	block, _ := clearsign.Decode(provBytes)
 	if block == nil {
 		return "the signed provenance does not decode"
 	}
@@ -277,6 +296,11 @@ func c17Chart(r *rand.Rand, evil bool) *chart.Chart {
 	return ch
 }
 
+// file names an archive may carry other than <name>-<version>.tgz
+func c17RenamedNames(name string) []string {
+	return []string{"ci-build-4711.tgz", "mirror-" + name, strings.TrimSuffix(name, ".tgz") + ".copy.TGZ"}
+}
+
 func c17Hex(b []byte) string {
 	h := sha256.Sum256(b)
 	return hex.EncodeToString(h[:])
@@ -337,6 +361,19 @@ func c17Build(r *rand.Rand, exhaustive, withCmd bool) c17Case {
 	}
 	c.EvilProv = []byte(s)
 
+	// renamed copies signed under their own name
+	c.Renamed = map[string][]byte{}
+	for _, nm := range c17RenamedNames(c.Name) {
+		rp := filepath.Join(work, "renamed", nm)
+		os.MkdirAll(filepath.Dir(rp), 0o755)
+		os.WriteFile(rp, c.Archive, 0o644)
+		ps := action.NewPackage()
+		ps.Key, ps.Keyring = "Trusted Signer", k.signerSecret
+		if err := ps.Clearsign(rp); err != nil {
+			panic(fmt.Sprint("signing a renamed copy: ", err))
+		}
+		c.Renamed[nm], _ = os.ReadFile(rp + ".prov")
+	}
 	// messages of unusual shape, signed by the trusted key itself
 	realSum := "sha256:" + c17Hex(c.Archive)
 	evilSum := "sha256:" + c17Hex(c.EvilArchive)
@@ -380,6 +417,12 @@ func c17Build(r *rand.Rand, exhaustive, withCmd bool) c17Case {
 		}
 	}
 	add(c17Mut{T: "prov", Op: "custom-subdir", S: "path-name", KR: "signer", Expect: "reject"})
+	for _, nm := range c17RenamedNames(c.Name) {
+		add(c17Mut{T: "prov", Op: "resigned", S: nm, KR: "signer", Expect: "accept"})           // signed and verified under the new name
+		add(c17Mut{T: "prov", Op: "resigned", S: nm, KR: "other", Expect: "reject"})            //   ... untrusted keyring
+		add(c17Mut{T: "prov", Op: "resigned-orig-name", S: nm, KR: "signer", Expect: "reject"}) // that provenance next to the canonical name
+		add(c17Mut{T: "prov", Op: "resigned-evil", S: nm, KR: "signer", Expect: "reject"})      // other bytes under the new name
+	}
 	for _, kr := range []string{"signer", "both"} {
 		add(c17Mut{T: "none", KR: kr, Expect: "accept"})
 	}
@@ -648,6 +691,12 @@ func c17Apply(c *c17Case, m c17Mut) (archive, prov []byte, rel string) {
 			if m.Op == "custom-subdir" {
 				rel = filepath.Join("sub/dir", c.Name)
 			}
+		case "resigned":
+			prov, rel = c.Renamed[m.S], m.S
+		case "resigned-orig-name":
+			prov = c.Renamed[m.S]
+		case "resigned-evil":
+			prov, rel, archive = c.Renamed[m.S], m.S, c.EvilArchive
 		case "alt":
 			prov = c.AltProv
 		case "evil":
@@ -1193,7 +1242,35 @@ func (*c17) CoqCase(ci, oi any) string {
 		dls = append(dls, fmt.Sprintf("mkDl %s %s %s %s %s %s", kind, hx.CoqBool(r.ChartOK), hx.CoqBool(r.ProvOK), c17CoqCheck(tk, &r.Chk),
 			hx.CoqBool(r.Err), hx.CoqOpt(c17Str(tk.val(r.Hash)), r.HasHash)))
 	}
-	return fmt.Sprintf("mkCase %s %s %s %s", c17CoqTab(tk, base, false), hx.CoqList(checks), hx.CoqList(provs), hx.CoqList(dls))
+	// the blocks the real signing produced, per file name the archive was signed under
+	var signs []string
+	sha := c17Hex(c.Archive)
+	names := append([]string{c.Name}, c17RenamedNames(c.Name)...)
+	for _, nm := range names {
+		pv := c.Prov
+		if nm != c.Name {
+			var ok bool
+			if pv, ok = c.Renamed[nm]; !ok {
+				continue
+			}
+		}
+		tab, _, _ := c17Tables(pv, c.RingSigner)
+		sums := "None"
+		if tab.SumsOK {
+			keys := make([]string, 0, len(tab.Sums))
+			for k := range tab.Sums {
+				keys = append(keys, k)
+			}
+			sort.Strings(keys)
+			it := make([]string, 0, len(keys))
+			for _, k := range keys {
+				it = append(it, hx.CoqPair(c17Str(k), c17Str(tk.val(tab.Sums[k]))))
+			}
+			sums = "(Some " + hx.CoqList(it) + ")"
+		}
+		signs = append(signs, fmt.Sprintf("mkSign %s %s %s", c17Str(nm), c17Str(tk.hex(sha)), sums))
+	}
+	return fmt.Sprintf("mkCase %s %s %s %s %s", c17CoqTab(tk, base, false), hx.CoqList(checks), hx.CoqList(provs), hx.CoqList(dls), hx.CoqList(signs))
 }
 
 func (*c17) Class(ci, oi any) string {
